@@ -12,6 +12,7 @@ use std::hash::{BuildHasher, Hasher};
 use std::sync::atomic::{AtomicU64, Ordering};
 use std::sync::Mutex;
 
+pub mod conc;
 pub mod interp;
 pub mod monitors;
 
